@@ -188,6 +188,8 @@ def run_c11(ctx):
             res.mc_failures.append(cnt["out"][cnt["out"].find("Error:"):][:3000])
         else:
             raise tlc.TLCError(cnt["out"][-2000:])
+    from props_solve import mc_laws
+    mc_laws(ctx, res)      # "consequently no accepted component can show negative loss, efficiency above 100 %, passive gain"
     cases, solves, twins = [], [], []
     n_probe = 0
     probe_every = 9 if ctx.quick else 1
